@@ -574,7 +574,15 @@ pub mod rewrite {
       imported_module,
       imported_module_loc: dummy_location,
     });
-    compute_module_diff_edits(&state.heap, module_reference, ast, &changed_ast)
+    let mut edits = compute_module_diff_edits(&state.heap, module_reference, ast, &changed_ast);
+    if !ast.imports.is_empty() {
+      // The new import is inserted at the end of the last existing one, which need not end its line:
+      // it may lack the trailing `;` or be followed by a comment. Start the new import on its own line.
+      for (_, text) in edits.iter_mut().filter(|(loc, _)| loc.start == loc.end) {
+        text.insert(0, '\n');
+      }
+    }
+    edits
   }
 }
 
